@@ -148,6 +148,106 @@ def r_opaque_fee_lower_bounds(prog):
     return out, n
 
 
+def _sub_ranges(prog):
+    """{name: (start, end)} for subroutine bodies that are contiguous instruction ranges, else None."""
+    ref = RefCFG(list(prog))
+    if not ref.sub_entry:
+        return None, ref
+    entries = sorted(ref.sub_entry.values())
+    label_at = {k: prog[k][1] for k in entries}
+    bounds = entries + [len(prog)]
+    # a trailing `FIN..:` / `MAIN..:` label block that belongs to main ends the last body
+    out = {}
+    for a, b in zip(bounds, bounds[1:]):
+        name = label_at[a]
+        end = b
+        for k in range(a + 1, b):
+            if prog[k][0] == "label" and (k in ref.main_members) and prog[k - 1][0] in ("retsub", "return", "err", "b"):
+                end = k
+                break
+        if not ref.sub_members[name] <= set(range(a, end)):
+            return None, ref
+        out[name] = (a, end)
+    return out, ref
+
+
+def r_clone_subroutines(prog):
+    """Give every call site its own copy of the callee (recursively): same executions, no shared subroutine.
+    Applicable only if some subroutine that is called from >= 2 sites can (itself or through its callees) end the
+    program without returning - the shape of the listed call-site-liveness imprecision."""
+    prog = list(prog)
+    ranges, ref = _sub_ranges(prog)
+    if not ranges:
+        return prog, 0
+    calls = {}
+    for k, name in ref.callsites:
+        calls.setdefault(name, []).append(k)
+    def closure(name, seen=None):
+        seen = seen if seen is not None else set()
+        if name in seen:
+            return seen
+        seen.add(name)
+        a, b = ranges[name]
+        for k in range(a, b):
+            if prog[k][0] == "callsub" and prog[k][1] in ranges:
+                closure(prog[k][1], seen)
+        return seen
+    def can_exit(name):
+        for n in closure(name):
+            a, b = ranges[n]
+            for k in range(a, b):
+                if prog[k][0] == "return" or (k == len(prog) - 1 and prog[k][0] not in ("b", "err", "retsub", "return")):
+                    return True
+        return False
+    shared_exit = [n for n in ranges if len(calls.get(n, [])) >= 2 and can_exit(n)]
+    nested_shared = [n for n in ranges if can_exit(n) and any(len(calls.get(m, [])) >= 2 for m in closure(n))]
+    if not shared_exit and not nested_shared:
+        return prog, 0
+    # recursion guard
+    for n in ranges:
+        if n in (closure(n) - {n}) and any(prog[k][1] == n for k in range(*ranges[n]) if prog[k][0] == "callsub"):
+            return prog, 0
+    body_idx = set()
+    for a, b in ranges.values():
+        body_idx.update(range(a, b))
+    counter = [0]
+    clones = []
+
+    def expand(seq, depth=0):
+        out = []
+        for ins in seq:
+            if ins[0] == "callsub" and ins[1] in ranges and depth < 6:
+                counter[0] += 1
+                tag = "_c%d" % counter[0]
+                a, b = ranges[ins[1]]
+                body = prog[a:b]
+                labs = set(i[1] for i in body if i[0] == "label")
+                ren = []
+                for i in body:
+                    if i[0] in ("label", "b", "bz", "bnz") and i[1] in labs:
+                        ren.append((i[0], i[1] + tag))
+                    elif i[0] in ("switch", "match"):
+                        ren.append(tuple([i[0]] + [(l + tag if l in labs else l) for l in i[1:]]))
+                    else:
+                        ren.append(i)
+                out.append(("callsub", ins[1] + tag))
+                clones.append(expand(ren, depth + 1))
+            else:
+                out.append(ins)
+        return out
+
+    main = expand([ins for k, ins in enumerate(prog) if k not in body_idx])
+    # main must not fall into the clones: the original layout already guaranteed that for the bodies it replaced;
+    # put the clones where the first body was
+    first = min(a for a, _b in ranges.values())
+    n_before = len([k for k in range(first) if k not in body_idx])
+    res = main[:n_before]
+    for c in clones:
+        res += c
+    res += main[n_before:]
+    return res, 1
+
+
 TYPE_DIM = {"Pay": ("OnCompletion", "ApplicationID"), "Axfer": ("OnCompletion", "ApplicationID"),
             "ApplUpdateApplication": ("TypeEnum",), "ApplDeleteApplication": ("TypeEnum",)}
 DET_LABEL = {"can-close-account": "Pay", "can-close-asset": "Axfer", "is-updatable": "ApplUpdateApplication",
@@ -170,6 +270,8 @@ def fragment(v, case, reeval):
         cur = list(case.prog)
         chain = [("int-field-constant-first-operand", r_swap_int_field_operands),
                  ("end-of-program-fallthrough-not-an-exit", r_append_return)]
+        if "listed-but-not-admitted" in v["kind"] or v["kind"] in ("constrained-field-reported-any", "reported-although-guarded"):
+            chain.append(("call-site-liveness-through-shared-callee-that-can-exit", r_clone_subroutines))
         for name, R in chain:
             nxt, changed = R(cur)
             if not changed:
